@@ -3,15 +3,17 @@ from .. import core, sx
 from ..areas import memo as A
 from ..extract import memo as xmemo
 
-ALPH = ["a", "b", "z", " ", "é", "ß", "ж", "中", "𝄞", "\n", "0", "_", "-", "€"]
+ALPH = ["a", "b", "z", " ", "é", "ß", "ж", "中", "𝄞", "\n", "0", "_", "-", "€", "\x00", "\x7f", "\x80", "ÿ", "\u2028", "\ufeff", "😀", "=", "\r"]
 
 
 def _text(rng, n):
     """about n utf-8 bytes of mixed-width unicode"""
-    s = ""
-    while len(s.encode()) < n:
-        s += rng.choice(ALPH)
-    return s.encode()
+    out, k = [], 0
+    while k < n:
+        c = rng.choice(ALPH).encode()
+        out.append(c)
+        k += len(c)
+    return b"".join(out)
 
 
 def legal_min(code, curt):
@@ -28,22 +30,23 @@ def setter_min(code, curt):
 
 
 def unpack(case):
-    """(code0, curt0, size0, authic, ki, memos, sched, hist)"""
+    """(code0, curt0, size0, authic, ki, memos, sched, hist, txpath)"""
     c = tuple(case[1:])
-    return c if len(c) > 7 else c + ([],)
+    if len(c) < 8:
+        c = c + ([],)
+    if len(c) < 9:
+        c = c + ("rend",)
+    return c
 
 
-def final_cfg(case):
-    """the oracle's own account of the configuration history: (code, curt, stored size) after the constructor and every assignment;
-    every assignment clamps the stored size to the minimum of the code / encoding then in force; None when an assignment is refused"""
-    code, curt, size, _a, _k, _m, _s, hist = unpack(case)
-    if code not in A.ZCODES:
-        return None
-    size = max(size, setter_min(code, curt))
-    for what, val in hist:
+def fold_cfg(cfg, pairs):
+    """the oracle's own account of property assignments on a live Memoer: every accepted assignment clamps the stored size to the minimum
+    of the code / encoding then in force; an assignment of a code that is not a zeroth code is refused and changes nothing"""
+    code, curt, size = cfg
+    for what, val in pairs:
         if what == "code":
             if val not in A.ZCODES:
-                return None
+                continue
             code = val
         elif what == "curt":
             curt = bool(val)
@@ -53,22 +56,55 @@ def final_cfg(case):
     return code, curt, size
 
 
+def cfgs(case):
+    """configuration in force when each memo is rent, and at the end; None when the constructor itself refuses the code"""
+    code, curt, size, _a, _k, memos, _s, hist, _p = unpack(case)
+    if code not in A.ZCODES:
+        return None
+    cfg = fold_cfg((code, curt, max(size, setter_min(code, curt))), hist)
+    out = []
+    for m in memos:
+        cfg = fold_cfg(cfg, m[3] if len(m) > 3 else ())
+        out.append(cfg)
+    return out, cfg
+
+
+def final_cfg(case):
+    c = cfgs(case)
+    return c[1] if c else None
+
+
+def memo_vid(case, mi):
+    """signer id a delivered memo must carry: the sender's vid when the memo was rent with a signed code"""
+    ki = unpack(case)[4]
+    return A.key(ki)["vid"].encode() if (ki is not None and cfgs(case)[0][mi][0] in A.SIGNED) else None
+
+
 def simulate(case, counts, f32, f33):
-    """spec-level receiver: which memo indices are delivered after each batch.
-    f32: a signed non-zeroth gram is dropped unless the zeroth gram of its memo is held;  f33: a memo that completes again is delivered again"""
-    _c0, _u0, _s0, authic, ki, memos, sched, _h = unpack(case)
-    code, curt, size = final_cfg(case)
-    signed = code in A.SIGNED
+    """spec-level receiver: which (memo index, source) reach the inbox at each service call.
+    f32: a signed non-zeroth gram is dropped unless the zeroth gram of its memo is held;  f33: a memo that completes again is delivered again.
+    A receiver that requires signatures ignores the grams of memos rent with an unsigned code.  Closed: datagrams wait in the transport."""
+    _c0, _u0, _s0, authic, ki, memos, sched, _h, _p = unpack(case)
+    per = cfgs(case)[0]
     held = {}
     first_src = {}
     done = set()
-    out = []
-    for b in sched:
-        for item in b:
-            mi, gi = item[0], item[1]
-            if mi >= len(memos) or not counts[mi]:
+    queue, pend, out = [], [], []
+    opened = True
+    for op in A.norm_ops(sched):
+        if isinstance(op, str):
+            opened = (op == "reopen")
+            continue
+        kind, b = op
+        queue += [it for it in b if it[0] < len(memos) and counts[it[0]]]
+        take = []
+        if opened:
+            take, queue = (queue[:1], queue[1:]) if kind == "once" else (queue, [])
+        for item in take:
+            mi, g = item[0], item[1] % counts[item[0]]
+            signed = per[mi][0] in A.SIGNED
+            if authic and not signed:
                 continue
-            g = gi % counts[mi]
             if not f33 and mi in done:
                 continue
             h = held.setdefault(mi, set())
@@ -79,12 +115,17 @@ def simulate(case, counts, f32, f33):
             if not h:
                 first_src[mi] = item[2] if len(item) > 2 else memos[mi][2]     # the source of a memo is that of its first gram
             h.add(g)
-        dl = []
         for mi in list(held):
             if len(held[mi]) == counts[mi]:
-                dl.append((mi, first_src[mi]))
+                pend.append((mi, first_src[mi]))
                 done.add(mi)
                 del held[mi]
+        if kind == "once":
+            dl, pend = pend[:1], pend[1:]
+        elif kind == "rxg":
+            dl = []
+        else:
+            dl, pend = pend, []
         out.append(dl)
     return out
 
@@ -99,7 +140,7 @@ class C20(core.Check):
                  "(permutations, duplicates, interleavings, batches) -> real receive servicing, against the compiled model")
     quick_n = 500
     thorough_n = 7000
-    level_text = ("Proved for ALL inputs (unbounded; 31 theorems). Configuration histories: setters_legal / size_setter_spec — after the constructor and ANY "
+    level_text = ("Proved for ALL inputs (unbounded; 35 theorems). Configuration histories: setters_legal / size_setter_spec — after the constructor and ANY "
                   "sequence of .code/.curt/.size assignments the stored gram size is >= the minimum of the code and encoding then in force (every setter "
                   "re-clamps), so rend_fuse_after_history applies. Sender: rend_fuse (bodies concatenate to the memo in gram-number order, none empty, count "
                   "field = number of grams, each gram = header ++ body (++ signature)). Header codec, every code of the regenerated table, signed or not: "
@@ -112,13 +153,17 @@ class C20(core.Check):
                   "rend -> any delivery order with duplicates -> serviceAllRx on an empty receiver -> delivered = [(memo, source, vid)] iff every gram is "
                   "in the sequence, else []): end_to_end_unsigned_b64, end_to_end_unsigned_b2, end_to_end_signed_b64 (guard K2/F32: zeroth gram first; "
                   "hypothesis: what sign returns has the table's size and verifies), over end_to_end_generic / _zeroth_first / end_to_end_of_picks. "
-                  "Still correspondence only: signed grams with Base2 headers end to end, and interleaving of several rendered memos in the composed "
-                  "statements (interleaving is proved at the accepted-gram level). Known findings K1, K2 (F32), K3 (F33) reproduced and matched narrowly.")
+                  "end_to_end_signed_b2 (+ grams_parse_b2_signed, with encode(decode t) = t). SEVERAL memos interleaved: end_to_end_interleaved (any family "
+                  "with pairwise different ids shuffled together with duplicates: a record is delivered iff it is a family memo all of whose grams arrived, "
+                  "each independently, none twice) and end_to_end_two_memos_b64 (two rend outputs). Still correspondence only: interleaving of SIGNED "
+                  "rendered memos in the composed statement. Known findings K1, K2 (F32), K3 (F33) reproduced and matched narrowly.")
     level_note = ("Trusted: Lean kernel + propext/Classical.choice/Quot.sound; translator harness/extract/memo.py; the sampled end-to-end correspondence "
                   "(real rend with real pysodium -> scheduled delivery -> real serviceAllRx vs the compiled model); the four receive dicts modelled as one "
                   "list of entries (their key sets coincide from the empty state); CPython utf-8 and float ceil as stated in assumptions. "
                   "Pre-finding F31 reproduced and repaired for the count formula (fix/memo eb96733); its small-size half is K1 (pinned by the tree's test).")
-    rule = ("cases: half of them reach their configuration by a HISTORY of property assignments on a live Memoer (constructor with other values, then "
+    rule = ("transmit side by rend, or memoit + serviceTxMemos / serviceTxMemosOnce; sender re-configured between memos in a quarter of the multi-memo "
+            "cases; receive side by serviceAllRx / service() / serviceAllRxOnce / serviceReceives+serviceRxGrams with close / reopen in between; rarely the empty memo or a "
+            "signer without a key. cases: half of them reach their configuration by a HISTORY of property assignments on a live Memoer (constructor with other values, then "
             ".size/.code/.curt in any order, repeated, rarely a refused code) before rend; zeroth code in {plain, auth, sure, sure+auth} x {Base64, Base2 headers}; gram size from the setter minimum up (mostly minimum+0..40 so "
             "that memos need 2..40 grams, sometimes 1200/65535); 1..4 memos of 1..2048 utf-8 bytes of mixed-width unicode, distinct mids, own sources; "
             "schedule = all grams permuted (in order / reversed / shuffled / zeroth-first shuffled / interleaved), with duplicates inserted, sometimes a "
@@ -196,9 +241,11 @@ class C20(core.Check):
             elif k < 0.85:
                 size = legal_min(code, curt) + rng.choice([0, 0, 1, 2, 3, 5, 8, 13, 21, 40])
             else:
-                size = rng.choice([600, 1200, 65535])
+                size = rng.choice([600, 1200, 65534, 65535, 65536, 70000])    # around MaxGramSize (the setter does not refuse larger values)
             authic = signed and rng.random() < 0.7
             ki = rng.randrange(0, 4) if signed else (None if rng.random() < 0.8 else rng.randrange(0, 4))
+            if signed and rng.random() < 0.04:
+                ki = rng.choice([None, 4, 5])          # no key to sign with: rend must refuse (MemoerError), nothing is sent
             # configuration history: (code, curt, size) above is the TARGET; half of the cases reach it by property assignments on a live
             # Memoer, in any order (size first, then code / curt is the order in which only the re-clamp of those setters protects rend)
             hist, c0 = [], (code, curt, size)
@@ -223,19 +270,36 @@ class C20(core.Check):
             nm = rng.choice([1, 1, 2, 2, 3, 4])
             for j in range(nm):
                 m = rng.random()
-                if m < 0.25:
-                    ln = rng.choice([1, 2, zbz - 1, zbz, zbz + 1, max(1, zbz - nbz), max(1, zbz - nbz + 1)])      # boundaries of the count formula
+                if m < 0.02:
+                    ln = 0                                                                                       # the empty memo: no grams, nothing delivered
+                elif m < 0.25:
+                    k_ = rng.choice([1, 2, 3, 7])
+                    ln = rng.choice([1, 2, zbz - 1, zbz, zbz + 1, max(1, zbz - nbz), max(1, zbz - nbz + 1),          # boundaries of the count formula
+                                     zbz + k_ * max(nbz, 1) - 1, zbz + k_ * max(nbz, 1), zbz + k_ * max(nbz, 1) + 1])  # exact multiples of the later body size
                 elif m < 0.85:
                     ln = rng.randrange(1, max(2, min(2048, zbz + max(nbz, 1) * rng.choice([1, 2, 3, 6, 12, 30]))))
                 else:
                     ln = rng.randrange(1, 2049)
                 if size < 100 and nbz >= 1 and (ln - zbz) // max(nbz, 1) > 60:
                     ln = zbz + nbz * rng.randrange(1, 40)
-                memos.append((_text(rng, max(1, ln)), rng.randrange(1, 10 ** 6), rng.randrange(1, 4)))
+                ln = min(ln, 2048)
+                memos.append((_text(rng, max(1, ln)) if ln else b"", rng.randrange(1, 10 ** 6), rng.randrange(1, 4)))
             # distinct mids
             seeds = set()
             memos = [(t, ms if ms not in seeds and not seeds.add(ms) else ms + 10 ** 6 + j, s) for j, (t, ms, s) in enumerate(memos)]
-            counts = [A.ref_count(len(t), zbz, nbz) if nbz >= 1 else 1 for t, _, _ in memos]
+            # the sender is re-configured BETWEEN memos (a live peer switched to another code / encoding / size): the receiver takes both kinds
+            if nm > 1 and rng.random() < 0.25:
+                j = rng.randrange(1, nm)
+                sets = [(w, rng.choice(A.ZCODES if ki is not None and ki < 4 else ["bAAA", "bAAE"]) if w == "code" else (rng.random() < 0.5 if w == "curt" else
+                         rng.choice([0, 40, 130, 170, size]))) for w in rng.sample(["code", "curt", "size"], rng.randrange(1, 4))]
+                memos[j] = memos[j] + (sets,)
+            cc = cfgs(("e2e",) + c0 + (authic, ki, memos, [], hist))
+            counts = []
+            for (t, *_r), (c_, u_, z_) in zip(memos, cc[0] if cc else [(code, curt, esz)] * nm):
+                zo_, no_ = A.ref_overheads(c_, False)
+                zb_, nb_ = z_ - (3 * zo_ // 4 if u_ else zo_), z_ - no_
+                counts.append(max(1, A.ref_count(len(t), zb_, nb_)) if nb_ >= 1 else 1)
+            signed = any(c_[0] in A.SIGNED for c_ in cc[0]) if cc else signed
             per = []
             for mi, c in enumerate(counts):
                 idx = list(range(c))
@@ -276,7 +340,19 @@ class C20(core.Check):
                 for c in cuts + [len(seq)]:
                     sched.append(seq[prev:c])
                     prev = c
-            yield ("e2e",) + c0 + (authic, ki, memos, sched, hist)
+            # entry points and life cycle on the receive side, and the way in on the transmit side
+            style = rng.random()
+            ops = []
+            for b in sched:
+                if style < 0.15:
+                    ops += [("once", [x]) for x in b] or [("once", [])]
+                else:
+                    ops.append((rng.choice(["all", "all", "all", "svc", "once", "rxg"]), b))
+                if rng.random() < 0.08:
+                    ops += ["close", (rng.choice(["all", "once"]), [rng.choice(seq)] if seq and rng.random() < 0.6 else []), "reopen"]
+            if style < 0.3 or any(not isinstance(o, str) and o[0] in ("once", "rxg") for o in ops):
+                ops += [("once", [])] * rng.randrange(1, 4) + [("all", [])]
+            yield ("e2e",) + c0 + (authic, ki, memos, ops, hist, rng.choice(["rend", "rend", "all", "once"]))
 
     # ---- running
     def _run(self, case):
@@ -291,55 +367,71 @@ class C20(core.Check):
         return self._run(case)[0]
 
     def request(self, case):
-        code, curt, size, authic, ki, memos, sched, hist = unpack(case)
+        code, curt, size, authic, ki, memos, sched, hist, _txpath = unpack(case)
         _obs, stab, vtab, _esz = self._run(case)
+        enc = lambda pairs: tuple((w, v.encode() if w == "code" else (bool(v) if w == "curt" else v)) for w, v in pairs)
+        ops = tuple(op if isinstance(op, str) else (op[0] if op[0] in ("once", "rxg") else "all", tuple(tuple(x) for x in op[1])) for op in A.norm_ops(sched))
         return ("e2e", ("code", code.encode()), ("curt", bool(curt)), ("size", size),
                 ("hist",) + tuple((w, v.encode() if w == "code" else (bool(v) if w == "curt" else v)) for w, v in hist), ("authic", bool(authic)),
-                ("vid", A.key(ki)["vid"].encode() if ki is not None else None), ("stab",) + tuple(stab), ("vtab",) + tuple(vtab),
-                ("memos",) + tuple((bytes(t), A.mid_of(ms).encode(), s) for t, ms, s in memos),
-                ("sched",) + tuple(tuple(tuple(x) for x in b) for b in sched))
+                ("vid", A.key(ki)["vid"].encode() if ki is not None else None), ("stab",) + tuple(stab)) + tuple(vtab) + (
+                ("memos",) + tuple((bytes(m[0]), A.mid_of(m[1]).encode(), m[2]) + ((enc(m[3]),) if len(m) > 3 else ()) for m in memos),
+                ("sched",) + ops)
 
     # ---- the property
     def _counts(self, obs):
         return [len(r) - 1 if r[0] == "grams" else 0 for r in obs[1][1:]]
 
     def oracle(self, case, obs):
-        _c0, _u0, _s0, authic, ki, memos, sched, hist = unpack(case)
+        try:
+            return self._oracle(case, obs)
+        except Exception as ex:       # an observation this predicate cannot account for is a violation, never a crash
+            return ["observation-not-accountable:" + type(ex).__name__]
+
+    def _oracle(self, case, obs):
+        _c0, _u0, _s0, authic, ki, memos, sched, hist, _p = unpack(case)
         bad = []
-        fc = final_cfg(case)
+        cc = cfgs(case)
         if obs[0][0] == "cfg-raise":
-            return [] if fc is None and obs[0][1] == "MemoerError" else ["configuration-refused:" + obs[0][1]]
-        if fc is None:
+            return [] if cc is None and obs[0][1] == "MemoerError" else ["configuration-refused:" + obs[0][1]]
+        if cc is None:
             return ["illegal-code-accepted"]
-        code, curt, esz = fc
+        per, (code, curt, esz) = cc
         if tuple(obs[0][1:]) != (code.encode(), curt, esz):
             bad.append("gram-size-not-clamped-to-code-and-encoding")
-        signed = code in A.SIGNED
-        vid = A.key(ki)["vid"].encode() if (ki is not None and signed) else None
-        for (t, _ms, _s), r in zip(memos, obs[1][1:]):
+        nokey = ki is not None and ki >= 4      # the sender's own keep holds keys 0..3 (and the rotated identifier): it cannot sign for this id
+        for mi, (m, r) in enumerate(zip(memos, obs[1][1:])):
+            signed = per[mi][0] in A.SIGNED
             if r[0] == "raise":
-                bad.append("rend-refused-legal-memo:" + r[1])
+                if not (signed and (ki is None or (nokey and len(m[0]))) and r[1] == "MemoerError"):
+                    bad.append("rend-refused-legal-memo:" + r[1])
+            elif len(m[0]) == 0:
+                if len(r) != 1:
+                    bad.append("grams-for-an-empty-memo")
+            elif signed and (ki is None or nokey):
+                bad.append("signed-grams-without-a-key")
             elif len(r) == 1:
                 bad.append("no-grams-for-nonempty-memo")
-            elif any(len(g) > esz for g in r[1:]):
+            elif any(len(g) > per[mi][2] for g in r[1:]):
                 bad.append("gram-larger-than-gram-size")
         if bad:
             return bad
         counts = self._counts(obs)
         want = simulate(case, counts, False, False)
         rx = obs[2][1:]
-        for i, o in enumerate(rx):
+        extra_tags = [o[0] for o in rx if isinstance(o[0], str) and o[0] != "escape"]
+        if extra_tags:
+            return sorted(set(extra_tags))
+        for o in rx:
             if o[0] == "escape":
-                bad.append("receive-servicing-raised:" + o[1])
-                return bad
-        if len(rx) != len(sched):
+                return ["receive-servicing-raised:" + o[1]]
+        if len(rx) != len(want):
             return ["observation-shape"]
-        delivered_total = {}
+        sent = [(bytes(m[0]), memo_vid(case, mi)) for mi, m in enumerate(memos)]
         for w, o in zip(want, rx):
             got = list(o[0][1:])
-            exp = [(bytes(memos[mi][0]), src, vid) for mi, src in w]
+            exp = [(bytes(memos[mi][0]), src, memo_vid(case, mi)) for mi, src in w]
             for g in got:
-                if (g[0], g[2]) not in [(bytes(t), vid) for t, _m, s in memos]:
+                if (g[0], g[2]) not in sent:
                     bad.append("delivered-something-never-sent")
             if sorted(got, key=repr) != sorted(exp, key=repr) and \
                     sorted(((g[0], g[2]) for g in got), key=repr) == sorted(((e[0], e[2]) for e in exp), key=repr):
@@ -357,110 +449,128 @@ class C20(core.Check):
         return sorted(set(bad))
 
     def known(self, case, obs, clauses):
-        _c0, _u0, _s0, authic, ki, memos, sched, hist = unpack(case)
-        fc = final_cfg(case)
-        if fc is None or obs[0][0] != "cfg" or any(c.startswith(("gram-size-not", "configuration", "illegal")) for c in clauses):
+        try:
+            return self._known(case, obs, clauses)
+        except Exception:
             return None
-        code, curt, size = fc
-        signed = code in A.SIGNED
+
+    def _known(self, case, obs, clauses):
+        _c0, _u0, _s0, authic, ki, memos, sched, hist, _p = unpack(case)
+        cc = cfgs(case)
+        if cc is None or obs[0][0] != "cfg" or any(c.startswith(("gram-size-not", "configuration", "illegal", "observation")) for c in clauses):
+            return None
+        per = cc[0]
         rends = obs[1][1:]
         if any(c.startswith("rend-refused") for c in clauses):
-            # K1: Base2 headers, unsigned code, gram size below the (unscaled) later-gram overhead + 1
-            if curt and not signed and size < legal_min(code, curt) and all(
-                    r[0] == "grams" or r[1] in ("MemoerError", "ZeroDivisionError") for r in rends):
-                return "C20-K1"
-            return None
-        if any(c.startswith(("receive-servicing-raised", "delivered-something", "observation", "no-grams", "gram-larger")) for c in clauses):
+            # K1: Base2 headers, unsigned code, gram size below the (unscaled) later-gram overhead + 1 — for every memo that was refused
+            ok = True
+            for mi, r in enumerate(rends):
+                if r[0] == "raise" and not (per[mi][0] in A.SIGNED and (ki is None or ki >= 4)):
+                    code, curt, size = per[mi]
+                    if not (curt and code not in A.SIGNED and size < legal_min(code, curt) and r[1] in ("MemoerError", "ZeroDivisionError")):
+                        ok = False
+            return "C20-K1" if ok else None
+        if any(c.startswith(("receive-servicing-raised", "delivered-something", "no-grams", "gram-larger", "grams-for", "signed-grams", "neighbour",
+                             "unreadable")) for c in clauses):
             return None
         counts = self._counts(obs)
         got = []
         for o in obs[2][1:]:
             got.append(sorted(repr(x) for x in o[0][1:]))
-        vid = A.key(ki)["vid"].encode() if (ki is not None and signed) else None
 
         def rep(sim):
-            return [sorted(repr((bytes(memos[mi][0]), src, vid)) for mi, src in w) for w in sim]
+            return [sorted(repr((bytes(memos[mi][0]), src, memo_vid(case, mi))) for mi, src in w) for w in sim]
         ideal = rep(simulate(case, counts, False, False))
         s33 = rep(simulate(case, counts, False, True))
         s32 = rep(simulate(case, counts, True, True))
         if got == s33 and s33 != ideal:
             return "C20-K3"
-        if signed and got == s32 and s32 != s33:
+        if any(c[0] in A.SIGNED for c in per) and got == s32 and s32 != s33:
             return "C20-K2"
         return None
 
     def nontrivial(self, case, obs):
-        if obs[0][0] != "cfg":
-            return False
-        counts = self._counts(obs)
-        flat = [x for b in case[7] for x in b]
-        plain = [(mi, g) for mi, c in enumerate(counts) for g in range(c)]
-        return any(c >= 2 for c in counts) and [tuple(x) for x in flat] != plain
+        try:
+            if obs[0][0] != "cfg":
+                return False
+            counts = self._counts(obs)
+            flat = [tuple(x) for op in A.norm_ops(unpack(case)[6]) if not isinstance(op, str) for x in op[1]]
+            plain = [(mi, g) for mi, c in enumerate(counts) for g in range(c)]
+            return any(c >= 2 for c in counts) and flat != plain
+        except Exception:
+            return True
 
     def features(self, case, obs):
-        _c0, _u0, _s0, authic, ki, memos, sched, hist = unpack(case)
+        try:
+            return self._features(case, obs)
+        except Exception as ex:
+            return ["features-failed:" + type(ex).__name__]
+
+    def _features(self, case, obs):
+        _c0, _u0, _s0, authic, ki, memos, sched, hist, txpath = unpack(case)
         if obs[0][0] != "cfg":
             return ["cfg-raise:" + obs[0][1]]
         code, curt = obs[0][1].decode(), obs[0][2]
         counts = self._counts(obs)
-        f = ["setters=" + str(min(len(hist), 4))] + (["reclamped-by-code-or-curt"] if hist and hist[-1][0] != "size" and obs[0][3] > max(
-            [_s0] + [v for w, v in hist if w == "size"]) else []) + [code, "b2" if curt else "b64", "authic" if authic else "open", f"memos={len(memos)}", f"batches~{min(len(sched), 6)}"]
+        ops = A.norm_ops(sched)
+        svc = [op for op in ops if not isinstance(op, str)]
+        f = ["setters=" + str(min(len(hist), 4)), "txpath:" + txpath] + (["reclamped-by-code-or-curt"] if hist and hist[-1][0] != "size" and obs[0][3] > max(
+            [_s0] + [v for w, v in hist if w == "size"]) else []) + [code, "b2" if curt else "b64", "authic" if authic else "open", f"memos={len(memos)}", f"calls~{min(len(svc), 6)}"]
+        f += sorted({"entry:" + op[0] for op in svc}) + (["close/reopen"] if any(isinstance(op, str) for op in ops) else [])
+        if any(len(m) > 3 and m[3] for m in memos):
+            f.append("reconfigured-between-memos")
+        if any(len(m[0]) == 0 for m in memos):
+            f.append("empty-memo")
         f.append("grams/memo~" + str(min(max(counts + [0]), 40) // 5 * 5))
-        f.append("memo-bytes~" + str(min(max(len(t) for t, _, _ in memos), 2048) // 256 * 256))
-        flat = [tuple(x) for b in sched for x in b]
-        f.append("dups" if len(flat) != len(set((x[0], x[1] % counts[x[0]]) for x in flat if counts[x[0]])) else "no-dups")
+        f.append("memo-bytes~" + str(min(max(len(m[0]) for m in memos), 2048) // 256 * 256))
+        flat = [tuple(x) for op in svc for x in op[1]]
+        f.append("dups" if len(flat) != len(set((x[0], x[1] % counts[x[0]]) for x in flat if x[0] < len(counts) and counts[x[0]])) else "no-dups")
         if any(len(x) > 2 for x in flat):
             f.append("foreign-source-duplicate")
         if any(r[0] == "raise" for r in obs[1][1:]):
             f += ["rend-raise:" + r[1] for r in obs[1][1:] if r[0] == "raise"]
-        nd = sum(len(o[0]) - 1 for o in obs[2][1:] if o[0] != "escape")
+        nd = sum(len(o[0]) - 1 for o in obs[2][1:] if not isinstance(o[0], str))
         f.append(f"delivered={min(nd, 4)}")
         return f
 
     def shrink(self, case):
-        code, curt, size, authic, ki, memos, sched, hist = unpack(case)
-        case = ("e2e", code, curt, size, authic, ki, memos, sched)
-        for c in self._shrink8(case):
-            yield c + (hist,)
-        for i in range(len(hist)):
-            yield case + (hist[:i] + hist[i + 1:],)
-
-    def _shrink8(self, case):
-        _, code, curt, size, authic, ki, memos, sched = case
-        for i in range(len(sched)):
-            if len(sched) > 1:
-                yield case[:7] + (sched[:i] + sched[i + 1:],)
-            for j in range(len(sched[i])):
-                yield case[:7] + (sched[:i] + [sched[i][:j] + sched[i][j + 1:]] + sched[i + 1:],)
-        if len(sched) > 1:
-            yield case[:7] + ([sum([list(b) for b in sched], [])],)
+        code, curt, size, authic, ki, memos, sched, hist, txpath = unpack(case)
+        ops = A.norm_ops(sched)
+        mk = lambda ms, sc, h=hist, tp=txpath: ("e2e", code, curt, size, authic, ki, ms, sc, h, tp)
+        for i in range(len(ops)):
+            if len(ops) > 1:
+                yield mk(memos, ops[:i] + ops[i + 1:])
+            if not isinstance(ops[i], str):
+                for j in range(len(ops[i][1])):
+                    yield mk(memos, ops[:i] + [(ops[i][0], ops[i][1][:j] + ops[i][1][j + 1:])] + ops[i + 1:])
+                if ops[i][0] != "all":
+                    yield mk(memos, ops[:i] + [("all", ops[i][1])] + ops[i + 1:])
         for i in range(len(memos)):
             if len(memos) > 1:
                 ms = memos[:i] + memos[i + 1:]
-                sc = [[(x[0] - (x[0] > i),) + tuple(x[1:]) for x in b if x[0] != i] for b in sched]
-                yield case[:6] + (ms, sc)
+                sc = [op if isinstance(op, str) else (op[0], [(x[0] - (x[0] > i),) + tuple(x[1:]) for x in op[1] if x[0] != i]) for op in ops]
+                yield mk(ms, sc)
+            if len(memos[i]) > 3 and memos[i][3]:
+                yield mk(memos[:i] + [tuple(memos[i][:3])] + memos[i + 1:], ops)
             t = memos[i][0]
             if len(t) > 1:
                 for cut in (len(t) // 2, len(t) - 1):
-                    try:
-                        t2 = bytes(t)[:cut].decode("utf-8", "ignore").encode()
-                    except Exception:
-                        continue
+                    t2 = bytes(t)[:cut].decode("utf-8", "ignore").encode()
                     if t2:
-                        yield case[:6] + (memos[:i] + [(t2,) + tuple(memos[i][1:])] + memos[i + 1:], sched)
+                        yield mk(memos[:i] + [(t2,) + tuple(memos[i][1:])] + memos[i + 1:], ops)
+        for i in range(len(hist)):
+            yield mk(memos, ops, hist[:i] + hist[i + 1:])
+        if txpath != "rend":
+            yield mk(memos, ops, hist, "rend")
 
     def mutate(self, rng, case):
         out = list(self.shrink(case))
-        code, curt, size, authic, ki, memos, sched, hist = unpack(case)
-        out.append(("e2e", code, not curt, size, authic, ki, memos, sched, hist))
+        code, curt, size, authic, ki, memos, sched, hist, txpath = unpack(case)
+        out.append(("e2e", code, not curt, size, authic, ki, memos, sched, hist, txpath))
         for d in (-1, 1, 8):
-            out.append(("e2e", code, curt, max(0, size + d), authic, ki, memos, sched, hist))
-        rs = [list(b) for b in sched]
-        for b in rs:
-            b.reverse()
-        out.append(("e2e", code, curt, size, authic, ki, memos, rs, hist))
+            out.append(("e2e", code, curt, max(0, size + d), authic, ki, memos, sched, hist, txpath))
         if ki is not None:
-            out.append(("e2e", "bAAA", curt, size, authic, ki, memos, sched, [("size", size), ("code", code)] + list(hist)))
+            out.append(("e2e", "bAAA", curt, size, authic, ki, memos, sched, [("size", size), ("code", code)] + list(hist), txpath))
         return out
 
 
